@@ -283,6 +283,17 @@ def sample_programs():
         cb("<t>", "<t> + <dt>")
     progs.append(("messages", DAGCode.from_phases_list(
         [cb.as_execution_phase("primary")], "primary"), {}))
+    # phase names of every length up to what a Fortran identifier allows (they appear in generated names and in
+    # whatever the generator writes next to them)
+    for n in (27, 33, 39, 46):
+        pname = ("advance_solution_with_step_size_control_and_more")[:n]
+        with CodeBuilder(pname) as cb:
+            cb("<dt>", "<dt>/2")
+            with cb.if_("<dt> < 1e-6"):
+                cb.fail_step()
+            cb("<t>", "<t> + <dt>")
+        progs.append((f"phase-name-of-{n}-characters", DAGCode.from_phases_list(
+            [cb.as_execution_phase(pname)], pname), {}))
     return progs
 
 
@@ -374,7 +385,8 @@ def run_generators(shard, rec):
             before = rec.counters.get("wrap_contract_evaluations_python", 0)
             try:
                 ptext = PythonCodeGenerator(class_name="M")(dag)
-                ftext = f.CodeGenerator("m_" + name, user_type_map=utm)(dag)
+                ftext = f.CodeGenerator("m_" + "".join(c if c.isalnum() else "_" for c in name),
+                                        user_type_map=utm)(dag)
             except Exception as ex:
                 # a generator that cannot wrap one of its own lines has no wrapped form at all
                 rec.violation(f"generator-raises-{type(ex).__name__}-while-emitting",
